@@ -1,6 +1,7 @@
 package c20
 
 import (
+	"context"
 	"errors"
 	"fmt"
 	"sort"
@@ -37,12 +38,23 @@ func (e *Env) SortedCalls() []string {
 const FaultToken = "FAULT:"
 
 // Call is the common prologue of every stub call: (1) log the call and its arguments,
-// (2) a scheduling point ("this resolver takes time"), (3) the fault plan. It returns, per
-// key, whether the resolver is to return nil for it, or an error; or panics.
-func (e *Env) Call(resolver string, keys []string) (nils []bool, err error) {
+// (2) a scheduling point ("this resolver takes time"), (3) like any real resolver that
+// hands its context to a database / HTTP client, it gives up with ctx.Err() when its
+// context has been cancelled by then, (4) the fault plan. It returns, per key, whether the
+// resolver is to return nil for it, or an error; or panics.
+//
+// The harness never cancels the request context, so a cancelled context here is the doing
+// of the code under test. One scheduling point followed by the check observes everything a
+// resolver that selects on ctx.Done() while it works could observe: the check sees the
+// cancellation iff the cancel is scheduled before the resolver resumes from its (last)
+// point, and the explorer enumerates both orders.
+func (e *Env) Call(ctx context.Context, resolver string, keys []string) (nils []bool, err error) {
 	e.log(resolver + "(" + strings.Join(keys, " ") + ")")
 	vrt.Yield("resolver " + resolver)
 	nils = make([]bool, len(keys))
+	if err := ctx.Err(); err != nil {
+		return nils, err
+	}
 	f := e.Fault
 	if f == nil || f.Resolver != resolver {
 		return nils, nil
@@ -64,8 +76,8 @@ func (e *Env) Call(resolver string, keys []string) (nils []bool, err error) {
 }
 
 // Call1 is Call for single-entity resolvers.
-func (e *Env) Call1(resolver string, key string) (isNil bool, err error) {
-	nils, err := e.Call(resolver, []string{key})
+func (e *Env) Call1(ctx context.Context, resolver string, key string) (isNil bool, err error) {
+	nils, err := e.Call(ctx, resolver, []string{key})
 	return nils[0], err
 }
 
@@ -87,8 +99,8 @@ func idOf(rep map[string]any) string {
 // Populate is the body of the user-written Populate<T>Requires functions (explicit_requires):
 // log, scheduling point, fault plan, then copy the required field out of the representation
 // it was handed. set dereferences the entity, exactly as user code would.
-func (e *Env) Populate(name string, rep map[string]any, set func(w int)) error {
-	if _, err := e.Call1(name, idOf(rep)); err != nil {
+func (e *Env) Populate(ctx context.Context, name string, rep map[string]any, set func(w int)) error {
+	if _, err := e.Call1(ctx, name, idOf(rep)); err != nil {
 		return err
 	}
 	w, err := Weight(rep)
@@ -101,8 +113,8 @@ func (e *Env) Populate(name string, rep map[string]any, set func(w int)) error {
 
 // Cost is the body of the computed `cost` field resolvers (computed_requires): the value is
 // a function of the required field of the representation it was handed.
-func (e *Env) Cost(name, id string, requires map[string]any) (int, error) {
-	if _, err := e.Call1(name, id); err != nil {
+func (e *Env) Cost(ctx context.Context, name, id string, requires map[string]any) (int, error) {
+	if _, err := e.Call1(ctx, name, id); err != nil {
 		return 0, err
 	}
 	w, err := Weight(requires)
